@@ -471,6 +471,7 @@ class HarnessResult:
         self.havoc: List[str] = []
         self.covers: Dict[str, int] = {}
         self.models_used: List[str] = []
+        self.uncovered: Dict[str, List[int]] = {}
 
 
 def run_harness(hdef: HarnessDef, index: SourceIndex, make_registry: Callable[[], Registry], check_timeout_ms: int = 10000, branch_timeout_ms: int = 3000) -> HarnessResult:
@@ -517,6 +518,8 @@ def run_harness(hdef: HarnessDef, index: SourceIndex, make_registry: Callable[[]
     res.havoc = sorted(havoc_log)
     res.covers = dict(ex.covers)
     res.models_used = sorted(models.USED)
+    res.uncovered = {k: [ln for ln in lines if ln not in ex.stmt_cov.get(k, ())] for k, lines in ex.stmt_all.items()}
+    res.stmt_total = {k: len(lines) for k, lines in ex.stmt_all.items()}
     return res
 
 
